@@ -22,7 +22,8 @@ RULE = (
     "paths at which the outputs of the first run already exist, and one run that executes the command twice in one interpreter "
     "(second execution from a used heap); inputs also carry undeclared INFO keys, genotype noise with --distrust-genotypes and all "
     "three report lists for pedigrees, three-file comparisons with --tsv-multiway, BX read clouds tying between two phase sets, "
-    "split --only-largest-block with tying blocks; `learn` (native state in src/caller.cpp) additionally with the heap "
+    "split --only-largest-block with tying blocks; `phase --algorithm heuristic|hapchat` (an input every run of which is refused alike "
+    "has no result and is skipped and counted; a mix of refusing and succeeding runs is a violation); `learn` (native state in src/caller.cpp) additionally with the heap "
     "contents varied (MALLOC_PERTURB_ 85/170/255) and once under valgrind memcheck, where a repository frame that uses uninitialised "
     "memory is itself a violation (the result is then a function of heap garbage). Oracle: "
     "all output files of all runs of one input must be identical after dropping the recorded command line (##commandline, @PG CL) "
@@ -34,7 +35,12 @@ REQUIRED_COUNTERS = ["subprocess_runs", "inputs_compared", "distinct_probe_order
 ASSUMPTIONS = ["hash seeds and schedules are sampled, not enumerated", "polyphasegenetic is not driven: the repository ships no input on which it runs end to end (it aborts with `assert clustering` on tests/data)", "learn: single-contig inputs only"]
 WATCHDOG = {"quick": 900, "thorough": 2400}
 KINDS = ["phase", "phase_ped", "phase_quartet", "genotype", "haplotag", "polyphase", "compare", "stats", "unphase", "split",
-         "haplotagphase", "hapcut2vcf", "find_snv", "polyphase_allhet", "polyphase_prephased", "haplotag_ignore_rg", "learn", "learn_repo", "split_largest", "haplotag_bx"]
+         "haplotagphase", "hapcut2vcf", "find_snv", "polyphase_allhet", "polyphase_prephased", "haplotag_ignore_rg", "learn", "learn_repo", "split_largest", "haplotag_bx",
+         "phase_heuristic", "phase_hapchat"]
+# the two non-default phasing algorithms refuse some inputs with an assertion (hapchat: more than one read-connected block; heuristic:
+# some pedigree sample orders); a run that fails has no result, so an input on which every run fails alike is skipped and counted, while
+# a mix of failing and succeeding runs, or differing outputs, is a violation
+ALGO_KINDS = ("phase_heuristic", "phase_hapchat")
 
 
 def lanes(tier):
@@ -85,8 +91,12 @@ def build_input(kind, rng, tmp):
     variants = [("hs%s#%d" % (s, i), {"PYTHONHASHSEED": s}, []) for i, s in enumerate(seeds)]
     variants.append(("repeat", {"PYTHONHASHSEED": "0"}, []))
     variants.append(("inproc2", {"PYTHONHASHSEED": "0", "WV_INPROC_REPEAT": "1"}, []))
-    if kind in ("phase", "phase_ped", "phase_quartet", "genotype"):
-        if kind == "phase":
+    if kind in ("phase", "phase_ped", "phase_quartet", "genotype") + ALGO_KINDS:
+        if kind == "phase_hapchat":
+            samples, ped = ["zeta", "alpha", "Mike"][: rng.choice([1, 1, 2, 3])], []
+        elif kind == "phase_heuristic" and rng.random() < 0.4:
+            samples, ped = ["papa", "mama", "kid", "x_loner"], [("papa", "mama", "kid")]
+        elif kind in ("phase", "phase_heuristic"):
             samples, ped = ["zeta", "alpha", "Mike", "b2"][: rng.randint(2, 4)], []
         elif kind == "phase_quartet":
             samples, ped = ["papa", "mama", "kidA", "kidB"], [("papa", "mama", "kidA"), ("papa", "mama", "kidB")]
@@ -95,7 +105,12 @@ def build_input(kind, rng, tmp):
         p = {"n_chrom": 2, "chrom_len": 2500, "n_var": rng.randint(8, 16), "kinds": ["snv"], "samples": samples, "pedigree": ped,
              "depth": rng.choice([4, 8]) if kind != "phase_quartet" else 12, "read_len": (150, 600), "error_rate": 0.03, "het_prob": 0.8,
              "qual_mode": "const", "recomb_prob": 0.05, "with_pl": kind != "genotype"}
-        if ped and kind != "genotype":
+        if kind in ALGO_KINDS:
+            p["n_chrom"] = rng.choice([1, 2])
+            p["chrom_len"] = rng.choice([1200, 2500])
+            p["n_var"] = rng.randint(4, 14)
+            p["depth"] = rng.choice([3, 5, 10])
+        if ped and kind not in ("genotype",) + ALGO_KINDS:
             # genotype calls that contradict the reads (weak likelihoods): --distrust-genotypes then changes several family members,
             # often at one position, and lists the changes
             p["gt_noise"] = (0.3, 0.0)
@@ -124,6 +139,11 @@ def build_input(kind, rng, tmp):
             rl = os.path.join(outdir, "reads.tsv")
             args = ["phase", "--no-reference", "-o", out, "--output-read-list", rl, sim.vcf] + sim.bams
             outs = [out, rl]
+            if kind in ALGO_KINDS:
+                args += ["--algorithm", kind.split("_")[1]]
+                if ped:
+                    args += ["--ped", sim.ped]
+                return args, outs
             if ped:
                 rc = os.path.join(outdir, "recomb.tsv")
                 gl = os.path.join(outdir, "gtchanges.tsv")
@@ -443,10 +463,13 @@ def run_case(idx, rng, tier, lane):
             if rc == -999:
                 viol.append({"mech": "no-result-within-bound:" + kind, "msg": "%s under %s: %s (other runs of this input take seconds)" % (" ".join(args[:3]), label, err)})
                 break
+            if rc != 0 and kind in ALGO_KINDS:
+                results[label] = {"__exit__": "failed"}
+                continue
             if rc != 0:
                 viol.append({"mech": "nonzero-exit:" + kind, "msg": "%s exited %d under %s: %s" % (" ".join(args[:3]), rc, label, err[-600:])})
                 break
-            contents = {}
+            contents = {"__exit__": "ok"} if kind in ALGO_KINDS else {}
             for o in outs:
                 name = os.path.basename(o)
                 if o == "STDOUT":
@@ -459,6 +482,8 @@ def run_case(idx, rng, tier, lane):
         if results and not any(v["mech"].startswith(("nonzero-exit", "no-result")) for v in viol):
             labels = list(results)
             base = results[labels[0]]
+            if kind in ALGO_KINDS and all(r["__exit__"] == "failed" for r in results.values()):
+                counters["algo_refused_inputs:" + kind] = counters.get("algo_refused_inputs:" + kind, 0) + 1
             counters["inputs_compared"] = counters.get("inputs_compared", 0) + 1
             for lb in labels[1:]:
                 if lb == "vg" and kind == "genotype":
@@ -493,7 +518,7 @@ def run_case(idx, rng, tier, lane):
             counters["distinct_probe_orders_seen"] = counters.get("distinct_probe_orders_seen", 0) + len(orders)
             border = {b for b in blocks.values() if len(b) > 1}
             counters["distinct_block_completion_orders_seen"] = counters.get("distinct_block_completion_orders_seen", 0) + len(border)
-            nonempty = all(len(c) > 0 for c in base.values())
+            nonempty = all(len(c) > 0 for c in base.values()) and base.get("__exit__") != "failed"
             if (len(orders) >= 2 or len(border) >= 2) and nonempty:
                 keys.add(kind + ":" + hashlib.sha1(json.dumps(base, sort_keys=True).encode()).hexdigest()[:12])
             sample = {"subcommand": kind, "runs": labels, "distinct_probe_orders": len(orders), "distinct_block_orders": len(border), "outputs": sorted(base)}
